@@ -3,6 +3,7 @@ from __future__ import annotations
 
 import ast
 import itertools
+import re
 from typing import Dict, FrozenSet, List, Optional, Set
 
 from .. import sym
@@ -187,34 +188,67 @@ def r1(ctx):
 def r2(ctx):
     P = ctx.project
     f = P.func(MAT + "._evaluate_factor")
-    ifs = [n for n in ast.walk(f.node) if isinstance(n, ast.If) and norm(n.test) == "value.__formulaic_metadata__.kind is Factor.Kind.UNKNOWN"]
-    ctx.floor("C08.R2", len(ifs), 1, "UNKNOWN-kind resolution sites")
-    b = ifs[0]
-    ctx.look()
-    inner = [s for s in b.body if isinstance(s, ast.If)]
-    ok = False
-    if len(inner) == 1 and "_is_categorical(value)" in norm(inner[0].test):
-        tb = {norm(s.targets[0]): norm(s.value) for s in inner[0].body if isinstance(s, ast.Assign)}
-        fb = {norm(s.targets[0]): norm(s.value) for s in inner[0].orelse if isinstance(s, ast.Assign)}
-        ok = tb == {"kind": "Factor.Kind.CATEGORICAL", "spans_intercept": "True"} and fb == {"kind": "Factor.Kind.NUMERICAL", "spans_intercept": "False"}
-    ctx.check(ok, "C08.R2", "an UNKNOWN kind becomes CATEGORICAL (spanning the intercept) or NUMERICAL on both branches", f.module.line(b),
-              ctx.construct(f, text="resolve UNKNOWN"), "both branches of the categorical test must assign kind and spans_intercept consistently")
-    rew = [s for s in b.body if isinstance(s, ast.Assign) and norm(s.targets[0]) == "value"]
-    ok = len(rew) == 1 and norm(rew[0].value) == "FactorValues(value, kind=kind, spans_intercept=spans_intercept)"
-    ctx.check(ok, "C08.R2", "the value is re-wrapped with the resolved kind", f.module.line(b), ctx.construct(f, text="rewrap"),
-              f"re-wrap is `{norm(rew[0].value) if rew else None}`")
-    # the cache store comes after the resolution and stores `value`
-    stores = [s for s in ast.walk(f.node) if isinstance(s, ast.Assign) and norm(s.targets[0]) == "self.factor_cache[factor.expr]"]
-    from ..util import doc_order
-    pos = doc_order(f.node)
-    ok = len(stores) == 1 and "values=value" in norm(stores[0].value) and pos[id(stores[0])] > pos[id(b)]
-    ctx.check(ok, "C08.R2", "only kind-resolved values are cached", f.where, ctx.construct(f, text="cache store"), "factor_cache must receive the re-wrapped value")
-    wrap = [n for n in ast.walk(f.node) if isinstance(n, ast.stmt) and sym.pm_any([
-        "if not isinstance(value, FactorValues): value = FactorValues(value)", "value = value if isinstance(value, FactorValues) else FactorValues(value)",
-        "value = FactorValues(value) if not isinstance(value, FactorValues) else value"], n) is not None]
-    ok = len(wrap) == 1 and pos[id(wrap[0])] < pos[id(b)]
-    ctx.check(ok, "C08.R2", "every evaluated value is wrapped (default kind UNKNOWN) before the kind test", f.where, ctx.construct(f, text="wrap"),
-              "`if not isinstance(value, FactorValues): value = FactorValues(value)` must precede the kind resolution")
+    # decided on the path summaries of _evaluate_factor, so that the wrapping / kind inference may live in a helper, an
+    # if-chain, conditional expressions or guard clauses: on every path that stores into the factor cache
+    #   (a) the value was tested for being a FactorValues and wrapped when it was not,
+    #   (b) its kind was tested against UNKNOWN afterwards, and
+    #   (c) when UNKNOWN, _is_categorical decided, and the value carried on is FactorValues(…, kind=CATEGORICAL, spans_intercept=True)
+    #       on the categorical side and FactorValues(…, kind=NUMERICAL, spans_intercept=False) on the other.
+    try:
+        outs = sym.outcomes(f.node)
+    except sym.Unmodelled as e:
+        raise AnalysisError(f"C08.R2: _evaluate_factor cannot be summarised: {e}")
+    is_store = lambda e: isinstance(e, ast.Assign) and norm(e.targets[0]).startswith("self.factor_cache[")
+    paths = [o for o in outs if any(is_store(e) for e in o.effects)]
+    ctx.floor("C08.R2", len(paths), 4, "paths of _evaluate_factor that store into the factor cache")
+    UNK = re.compile(r"^(?!factor\.kind)(.+)\.__formulaic_metadata__\.kind is (not )?Factor\.Kind\.UNKNOWN$")
+    CAT = re.compile(r"^(not )?self\._is_categorical\(")
+    WRAPT = re.compile(r"^(not )?isinstance\((.+), FactorValues\)$")
+
+    def typed_wraps(nodes):
+        res = []
+        for n in nodes:
+            for c in ast.walk(n):
+                if isinstance(c, ast.Call) and norm(c.func) == "FactorValues" and kwarg(c, "kind") is not None:
+                    k, sp = norm(kwarg(c, "kind")), kwarg(c, "spans_intercept")
+                    if k in ("Factor.Kind.CATEGORICAL", "Factor.Kind.NUMERICAL"):
+                        res.append((k.split(".")[-1], norm(sp) if sp is not None else None))
+        return res
+
+    bad_wrap, bad_test, bad_kind = [], [], []
+    n_unknown = {"CATEGORICAL": 0, "NUMERICAL": 0}
+    for o in paths:
+        ctx.look()
+        texts = o.cond_text()
+        iu = next((i for i, t in enumerate(texts) if UNK.match(t)), None)
+        iw = next((i for i, t in enumerate(texts) if WRAPT.match(t)), None)
+        if iu is None:
+            bad_test.append(texts)
+            continue
+        subj = ast.parse(UNK.match(texts[iu]).group(1), mode="eval").body
+        inline = sym.pm_any(["ANY_v if isinstance(ANY_v, FactorValues) else FactorValues(ANY_v)", "FactorValues(ANY_v) if not isinstance(ANY_v, FactorValues) else ANY_v"], subj) is not None
+        if not inline and (iw is None or iw > iu or (WRAPT.match(texts[iw]).group(1) and not norm(subj).startswith("FactorValues("))):
+            bad_wrap.append(texts[: iu + 1])
+        if UNK.match(texts[iu]).group(2):
+            continue  # kind already known: carried on as is
+        cats = [t for t in texts[iu + 1:] if CAT.match(t)]
+        later = [c for c, _pol in o.conds[iu + 1:]] + list(o.effects) + ([o.value] if o.value is not None else [])
+        seen = set(typed_wraps(later))
+        if len(cats) != 1:
+            bad_kind.append(f"UNKNOWN kind resolved without (one) _is_categorical decision: {texts[iu:iu + 3]}")
+            continue
+        want_k = ("NUMERICAL", "False") if CAT.match(cats[0]).group(1) else ("CATEGORICAL", "True")
+        n_unknown[want_k[0]] += 1
+        if seen != {want_k}:
+            bad_kind.append(f"`{cats[0][:60]}` carries on {sorted(seen)} instead of {want_k}")
+    b = f.node
+    ctx.check(not bad_kind and not bad_test and all(n_unknown.values()), "C08.R2", "an UNKNOWN kind becomes CATEGORICAL (spanning the intercept) or NUMERICAL on both branches", f.where,
+              ctx.construct(f, text="resolve UNKNOWN"), "both sides of the categorical test must carry on a value re-wrapped with the matching kind and spans_intercept; "
+              f"{(bad_kind or bad_test or ['one side of the decision is missing'])[0]}")
+    ctx.check(not bad_test, "C08.R2", "only kind-resolved values are cached", f.where, ctx.construct(f, text="cache store"),
+              f"a path stores into factor_cache without having tested the kind of the value against UNKNOWN: {bad_test[:1]}")
+    ctx.check(not bad_wrap, "C08.R2", "every evaluated value is wrapped (default kind UNKNOWN) before the kind test", f.where, ctx.construct(f, text="wrap"),
+              f"a value that is not a FactorValues must be wrapped before its kind is read: {bad_wrap[:1]}")
     g = P.func(MAT + "._encode_evaled_factor")
     # under which kinds each encoder runs, and under which the function refuses (if/elif chain, nested else, or guards: same formula)
     from ..util import atom_mapper, reach_condition, truth_table
